@@ -6,6 +6,7 @@ package main
 //   rt  <name> <id> <gval>                     pogs.Insert then pogs.Extract -> extracted value (+ Go-side comparison with the input)
 //   insp <name> <id> <strct> <gval>            message built from the tree, then pogs.Insert over it -> resulting struct tree
 //   rt2 <name> <id> <gval> <gval>              two pogs.Insert into one struct, then pogs.Extract
+//   hostile <name> <arena> <T> <D> <segs>      pogs.Extract from a hostile message: ok/err/PANIC/HANG, allocation vs budget (hostile.go)
 //   ext <name> <id> <strct>                    message built from the tree -> pogs.Extract (+ Go-side comparison with the generated getters)
 //   gen <name> <id> <strct>                    message built from the tree -> generated getters
 
@@ -85,6 +86,11 @@ func runCase(line string) (kind, impl, class string, nontrivial bool) {
 			return kind, "def false", "def", false
 		}
 		return kind, "def true", "def", false
+	}
+	if kind == "hostile" {
+		hms, m := parseHostile(f)
+		impl, class := runHostile(hms, m)
+		return kind, impl, hms.name + "/" + class, true
 	}
 	ms := schemaByName[t.next()]
 	if ms == nil {
@@ -269,6 +275,10 @@ func runC19(out *Out, r *Rand, tier string, replay []string) {
 			do(fmt.Sprintf("gen %s %d %s", ms.name, root.id, a))
 			a = g.astruct(root, 0)
 			do(fmt.Sprintf("ext %s %d %s", ms.name, root.id, a))
+			// C01/C02 for Extract: hostile messages, small and default limits
+			for k := 0; k < 3; k++ {
+				do(g.hostileCase(ms))
+			}
 		}
 	}
 	out.Close("cases per mapped Go type: rt/ins = random Go values (all field kinds, nil/empty, inactive members set, unknown Which) " +
